@@ -20,7 +20,7 @@ RULE = ("bin/cmp/iop: every operator x operand-kind pair (S P E on either side, 
         "fibers x scalars x declared/estimated shape for scalar forms, seeded random leaf fibers and "
         "2-level trees (free / tensor-owned, default 0 or 7, empty sub-fibers); leaf operands also with an active "
         "range narrower than / offset from the shape (constructor, setActive, splitUniform partitions), rank format U "
-        "(own rank attributes / Tensor.setFormat, mixed with C), different declared shapes on the two operands, fibers "
+        "(own rank attributes / Tensor.setFormat, mixed with C), different declared shapes and different defaults on the two operands, fibers "
         "built with another default than their tensor's, the operation applied twice, a Metrics bracket around the "
         "operation or around the construction, an operand that grew between two queries, boxed / doubly boxed / "
         "element scalars, lazy right operands, tuple coordinates from flattenRanks, multi-digit coordinates. non-trivial = a box case "
@@ -351,6 +351,13 @@ def _gen_fiber_extras(rng, tier):
     for op in ("smul", "rmul", "ismul", "sadd", "radd", "isadd"):
         for a in inner:
             yield _deco(_fib_case(op, 0, 0, a, s=3, shape=5, act={"how": "set", "lo": 1, "hi": 3}), fmt="U")
+    # 2b. different DEFAULTS on the two operands of `+` (non-zero on one side, 0 on the other;
+    #     the right operand stores coordinates beyond the left one's last, the left one may be empty)
+    sevens, zeros = _leaf_fibers(2, [7, 3, 4]), _leaf_fibers(3, [0, 1, -1])
+    for a in sevens:
+        for b in zeros:
+            yield _deco(_fib_case("add", 0, 7, a, b=b), dfltb=0)
+            yield _deco(_fib_case("add", 0, 0, b, b=a), dfltb=7)
     # 2. different declared shapes on the two operands
     for op in FF_OPS:
         for a in tiny:
@@ -422,6 +429,10 @@ def _gen_fiber_extras(rng, tier):
                 kw["metrics"] = rng.choice(["op", "build"])
             if ff and rng.random() < 0.25:
                 kw["lazyb"] = rng.choice(["sub", "prune"])
+            if ff and i % 4 == 0 and rng.random() < 0.4:
+                kw["dfltb"] = 7 - dflt if dflt in (0, 7) else 0
+                kw.pop("fmt", None)
+                kw.pop("fmtb", None)
             if ff:
                 yield _deco(_fib_case(FF_OPS[i % 4], 0, dflt, a, b=b, shape=shape), **kw)
             else:
@@ -624,6 +635,8 @@ def _operand(case, key):
     operation), so case[key] / case["shape"] are overwritten by the observation."""
     d, dflt, kind = case["d"], case["dflt"], case["kind"]
     sfx = "" if key == "a" else "b"
+    if key == "b":
+        dflt = case.get("dfltb", dflt)      # the right operand may have a default of its own
     ft = H.ft()
     act = case.get("act" + sfx)
     shape = case.get("shape" + sfx, case.get("shape"))
